@@ -13,10 +13,10 @@ for t in targets:
         for o in r.obligations:
             if o.verdict != 'discharged' or '-v' in sys.argv: print('  ', o.verdict, o.name, o.backend, o.detail, o.model or '')
         continue
-    con = w.reg.contracts[t]
-    for variant in con.all_variants():
+    for con in [c for c in w.reg.facets[t] if not c.assumed] or w.reg.facets[t][:1]:
+      for variant in con.all_variants():
         r = verify_function(w, con, variant)
-        print(f'== {t} [{variant}] paths={r.paths} (normal {r.normal_paths}, exc {r.exc_paths}) obligations={len(r.obligations)} '
+        print(f'== {t} <{con.cid}> [{variant}] paths={r.paths} (normal {r.normal_paths}, exc {r.exc_paths}) obligations={len(r.obligations)} '
               f'time={r.seconds:.2f}s solver={r.solver_seconds:.2f}s queries={r.queries} vac={r.vacuity}')
         if r.error: print('   ERROR', r.error if '-t' in sys.argv else '\n'.join(r.error.splitlines()[:1] + r.error.splitlines()[-6:]))
         for o in r.obligations:
